@@ -5,81 +5,225 @@ import (
 	"unsafe"
 )
 
-// Simulated channel operations (instrumenter rule R1c): plain sends, plain
-// receives and close outside select statements. A task that would park in a
-// channel operation is marked blocked under the scheduler, so a receive that
-// nobody will ever satisfy (a "done" channel that is never closed) ends as a
+// Simulated channel operations (instrumenter rule R1c): sends, receives,
+// close, `range ch` and `select`. A task that would park in a channel
+// operation is marked blocked under the scheduler, so a receive that nobody
+// will ever satisfy (a "done" channel that is never closed) ends as a
 // deterministic deadlock report. Buffered channels use the real channel with
-// non-blocking attempts; an unbuffered rendezvous between two tasks cannot
+// non-blocking attempts (the real operation gives the race detector the real
+// happens-before edges); an unbuffered rendezvous between two tasks cannot
 // happen for real under a baton (only one task runs), so the value is handed
-// over through the scheduler and the happens-before edge the real rendezvous
-// would create is given to the race detector explicitly.
+// over through the scheduler and the two happens-before edges the real
+// rendezvous creates (send -> receive completes, receive -> send completes)
+// are given to the race detector explicitly:
+//
+//	the task that parks releases its own syncA before parking and acquires
+//	its own syncB after it was served; the task that arrives and serves it
+//	acquires the parker's syncA and releases the parker's syncB.
+//
+// Which of several ready select cases is taken is Go's pseudo-random choice;
+// here it comes from the run's seeded stream (the one behind map order), and
+// is always the first ready case under the canonical policy.
 
-type chanWait struct {
+// selInfo is one communication a parked task is waiting for.
+type selInfo struct {
 	ptr  uintptr
 	send bool
+	val  interface{} // value offered (send)
+}
+
+// chanWait is what task.blocked holds while a task is parked in a channel
+// operation or a select without default. A pointer, so that comparing
+// task.blocked with lock objects never meets an uncomparable dynamic type.
+type chanWait struct {
+	cases   []selInfo
+	fired   int         // index of the case a peer completed, -1 while none
+	recvVal interface{} // value delivered by a peer (receive case)
 }
 
 //go:norace
-func chanPtr(ch interface{}) uintptr { return reflect.ValueOf(ch).Pointer() }
+func chanPtr(ch interface{}) uintptr {
+	v := reflect.ValueOf(ch)
+	if !v.IsValid() || v.IsNil() {
+		return 0
+	}
+	return v.Pointer()
+}
 
+//go:norace
+func waitOf(o *task) *chanWait {
+	w, _ := o.blocked.(*chanWait)
+	return w
+}
+
+// unblockChan makes every task parked on channel p runnable again so that it
+// re-examines the channel (buffer space, data, close).
+//
 //go:norace
 func unblockChan(p uintptr) {
 	s := active
-	if s == nil {
+	if s == nil || p == 0 {
 		return
 	}
 	for _, o := range s.tasks {
-		if w, ok := o.blocked.(chanWait); ok && w.ptr == p {
-			o.blocked = nil
+		if w := waitOf(o); w != nil && w.fired < 0 {
+			for _, c := range w.cases {
+				if c.ptr == p {
+					o.blocked = nil
+					break
+				}
+			}
 		}
 	}
+}
+
+// findPeer returns a parked task (and the index of its case) that waits to
+// send on p (send=true) or to receive from p (send=false) and has not been
+// served yet.
+//
+//go:norace
+func findPeer(p uintptr, send bool, self *task) (*task, int) {
+	s := active
+	if s == nil || p == 0 {
+		return nil, -1
+	}
+	for _, o := range s.tasks {
+		if o == self || o.done {
+			continue
+		}
+		// a served or woken task has blocked == nil; its wait record is kept in o.cw
+		w := o.cw
+		if w == nil || w.fired >= 0 || !o.parkedInChan {
+			continue
+		}
+		for i, c := range w.cases {
+			if c.ptr == p && c.send == send {
+				return o, i
+			}
+		}
+	}
+	return nil, -1
+}
+
+// serve completes case i of the parked task o on behalf of the running task:
+// for a parked sender the value is taken, for a parked receiver v is given.
+//
+//go:norace
+func serve(o *task, i int, v interface{}) interface{} {
+	w := o.cw
+	w.fired = i
+	out := w.cases[i].val
+	if !w.cases[i].send {
+		w.recvVal = v
+	}
+	o.blocked = nil
+	return out
+}
+
+// parkChan parks the running task until a peer serves one of the cases or
+// something happens on one of the channels. It returns the index of the case
+// a peer completed, or -1 when the task was merely woken to look again.
+//
+//go:norace
+func parkChan(t *task, cases []selInfo, site string) (int, interface{}) {
+	w := &chanWait{cases: cases, fired: -1}
+	raceRelease(unsafe.Pointer(&t.syncA))
+	setPark(t, w)
+	handOff(t, site)
+	fired, v := clearPark(t, w)
+	if fired >= 0 {
+		raceAcquire(unsafe.Pointer(&t.syncB))
+	}
+	return fired, v
 }
 
 //go:norace
-func findWaiter(p uintptr, send bool) *task {
-	s := active
-	if s == nil {
-		return nil
-	}
-	for _, o := range s.tasks {
-		if w, ok := o.blocked.(chanWait); ok && w.ptr == p && w.send == send && !o.mailTaken && (send == o.hasMail) {
-			return o
-		}
-	}
-	return nil
+func setPark(t *task, w *chanWait) {
+	active.Contentions++
+	t.cw = w
+	t.parkedInChan = true
+	t.blocked = w
 }
+
+//go:norace
+func clearPark(t *task, w *chanWait) (int, interface{}) {
+	t.parkedInChan = false
+	t.cw = nil
+	t.blocked = nil
+	return w.fired, w.recvVal
+}
+
+// meet gives the race detector the two edges of a rendezvous with the parked
+// task o, as seen from the arriving task.
+func meet(o *task) {
+	raceAcquire(unsafe.Pointer(&o.syncA))
+	raceRelease(unsafe.Pointer(&o.syncB))
+}
+
+//go:norace
+func curTask() *task { return cur }
+
+//go:norace
+func aborting(t *task) bool { return t == nil || t.abort }
+
+// tryRecvNow attempts the receive without blocking: data in the buffer, a
+// closed channel, or a parked sender.
+func tryRecvNow(t *task, rv reflect.Value, p uintptr) (v reflect.Value, ok, done bool) {
+	if p == 0 {
+		return reflect.Value{}, false, false // nil channel: never ready
+	}
+	if x, k := rv.TryRecv(); x.IsValid() {
+		unblockChan(p) // a sender waiting for buffer space may proceed
+		return x, k, true
+	}
+	if s, i := findPeer(p, true, t); s != nil {
+		val := serve(s, i, nil)
+		meet(s)
+		return reflect.ValueOf(val), true, true
+	}
+	return reflect.Value{}, false, false
+}
+
+func asT[T any](v reflect.Value) T {
+	var zero T
+	if !v.IsValid() {
+		return zero
+	}
+	if x, ok := v.Interface().(T); ok {
+		return x
+	}
+	return zero
+}
+
+// bidirectional view of a channel value, for reflect.TrySend/TryRecv
+func chanValue(ch interface{}) reflect.Value { return reflect.ValueOf(ch) }
 
 // ChanRecv2 replaces `v, ok := <-ch`.
 func ChanRecv2[T any](ch <-chan T, site string) (T, bool) {
-	t := cur
-	if t == nil || t.abort {
+	t := curTask()
+	if t == nil {
 		v, ok := <-ch
 		return v, ok
 	}
-	p := chanPtr(ch)
-	handOff(t, site)
-	for {
+	if aborting(t) { // unwinding: never block
 		select {
 		case v, ok := <-ch:
-			unblockChan(p) // a sender waiting for buffer space may proceed
 			return v, ok
 		default:
+			var zero T
+			return zero, false
 		}
-		if s := findWaiter(p, true); s != nil {
-			// a sender is parked with its value: rendezvous through the scheduler
-			v := s.mail.(T)
-			takeMail(s)
-			raceAcquire(unsafe.Pointer(s))
-			return v, true
+	}
+	p := chanPtr(ch)
+	rv := chanValue(ch)
+	handOff(t, site)
+	for {
+		if x, ok, done := tryRecvNow(t, rv, p); done {
+			return asT[T](x), ok
 		}
-		park(t, chanWait{p, false}, site)
-		if t.hasMail {
-			// a sender delivered directly while we were parked
-			v := t.mail.(T)
-			clearMail(t)
-			raceAcquire(unsafe.Pointer(t))
-			return v, true
+		if fired, v := parkChan(t, []selInfo{{ptr: p}}, site); fired >= 0 {
+			x, _ := v.(T)
+			return x, true
 		}
 	}
 }
@@ -92,50 +236,60 @@ func ChanRecv1[T any](ch <-chan T, site string) T {
 
 // ChanSend replaces `ch <- v`.
 func ChanSend[T any](ch chan<- T, v T, site string) {
-	t := cur
-	if t == nil || t.abort {
+	t := curTask()
+	if t == nil {
 		ch <- v
 		return
 	}
+	if aborting(t) { // unwinding: never block
+		select {
+		case ch <- v:
+		default:
+		}
+		return
+	}
 	p := chanPtr(ch)
+	sv := chanValue(ch)
 	handOff(t, site)
 	for {
-		if r := findWaiter(p, false); r != nil && !r.hasMail {
-			// a receiver is parked: hand the value over
-			raceRelease(unsafe.Pointer(r))
-			giveMail(r, v)
+		if sendDirect(t, ch, sv, p, v) {
 			handOff(t, site)
 			return
 		}
-		sent := false
-		func() {
-			select {
-			case ch <- v: // buffer space (or panics: send on closed channel, as in Go)
-				sent = true
-			default:
-			}
-		}()
-		if sent {
-			unblockChan(p)
+		if fired, _ := parkChan(t, []selInfo{{ptr: p, send: true, val: v}}, site); fired >= 0 {
 			return
 		}
-		raceRelease(unsafe.Pointer(t))
-		offerMail(t, v)
-		park(t, chanWait{p, true}, site)
-		if mailWasTaken(t) {
-			return
-		}
-		clearMail(t)
 	}
+}
+
+// sendDirect: parked receiver first, then the real channel (typed send, so a
+// send-only channel works and a closed channel panics as in Go).
+func sendDirect[T any](t *task, ch chan<- T, sv reflect.Value, p uintptr, v T) bool {
+	if p == 0 {
+		return false
+	}
+	if r, i := findPeer(p, false, t); r != nil {
+		serve(r, i, v)
+		meet(r)
+		return true
+	}
+	select {
+	case ch <- v:
+		unblockChan(p)
+		return true
+	default:
+	}
+	return false
 }
 
 // ChanClose replaces close(ch).
 func ChanClose[T any](ch chan<- T, site string) {
 	close(ch)
-	t := cur
+	t := curTask()
 	if t == nil {
 		return
 	}
+	noteClosed(chanPtr(ch))
 	unblockChan(chanPtr(ch))
 	if t.abort {
 		return
@@ -143,38 +297,208 @@ func ChanClose[T any](ch chan<- T, site string) {
 	handOff(t, site)
 }
 
-//go:norace
-func park(t *task, w chanWait, site string) {
-	active.Contentions++
-	t.blocked = w
-	handOff(t, site)
+// ---- select ----
+
+// SelCase is one communication clause of a rewritten select statement.
+type SelCase interface {
+	info() selInfo
+	value() reflect.Value
+	// sendNow performs a non-blocking typed send on the real channel
+	sendNow() bool
 }
 
-//go:norace
-func giveMail(r *task, v interface{}) {
-	r.mail, r.hasMail = v, true
-	r.blocked = nil
+// RCase is `case [x :=] <-ch`.
+type RCase[T any] struct{ ch <-chan T }
+
+// SCase is `case ch <- v`.
+type SCase[T any] struct {
+	ch chan<- T
+	v  T
 }
 
-//go:norace
-func offerMail(t *task, v interface{}) {
-	t.mail, t.hasMail, t.mailTaken = v, true, false
+func RecvCase[T any](ch <-chan T) RCase[T]      { return RCase[T]{ch} }
+func SendCase[T any](ch chan<- T, v T) SCase[T] { return SCase[T]{ch, v} }
+
+func (c RCase[T]) info() selInfo        { return selInfo{ptr: chanPtr(c.ch)} }
+func (c RCase[T]) value() reflect.Value { return reflect.ValueOf(c.ch) }
+func (c RCase[T]) sendNow() bool        { return false }
+func (c SCase[T]) info() selInfo        { return selInfo{ptr: chanPtr(c.ch), send: true, val: c.v} }
+func (c SCase[T]) value() reflect.Value { return reflect.ValueOf(c.ch) }
+func (c SCase[T]) sendNow() bool {
+	select {
+	case c.ch <- c.v:
+		return true
+	default:
+		return false
+	}
 }
 
-//go:norace
-func takeMail(s *task) {
-	s.mailTaken = true
-	s.blocked = nil
+// SelResult is what Select decided: Index is the clause taken (-1: default).
+type SelResult struct {
+	Index int
+	val   interface{}
+	ok    bool
 }
 
-//go:norace
-func mailWasTaken(t *task) bool {
-	if t.mailTaken {
-		t.mail, t.hasMail, t.mailTaken = nil, false, false
+// SelRecv2 / SelRecv1 give the value received by clause c.
+func SelRecv2[T any](c RCase[T], r *SelResult) (T, bool) {
+	x, _ := r.val.(T)
+	return x, r.ok
+}
+
+func SelRecv1[T any](c RCase[T], r *SelResult) T {
+	x, _ := r.val.(T)
+	return x
+}
+
+// ready reports, without consuming anything, whether clause c could proceed now.
+func ready(t *task, c SelCase) bool {
+	in := c.info()
+	if in.ptr == 0 {
+		return false
+	}
+	rv := c.value()
+	if in.send {
+		if r, _ := findPeer(in.ptr, false, t); r != nil {
+			return true
+		}
+		return rv.Len() < rv.Cap() || isClosed(in.ptr)
+	}
+	if rv.Len() > 0 || isClosed(in.ptr) {
+		return true
+	}
+	if s, _ := findPeer(in.ptr, true, t); s != nil {
 		return true
 	}
 	return false
 }
 
+// closed channels are remembered (association list, reset per run) so that a
+// select can see "ready because closed" without consuming a value; channels
+// closed outside the simulated run are found by probing when empty.
+var closedL []uintptr
+
 //go:norace
-func clearMail(t *task) { t.mail, t.hasMail, t.mailTaken = nil, false, false }
+func noteClosed(p uintptr) { closedL = append(closedL, p) }
+
+//go:norace
+func isClosedNoted(p uintptr) bool {
+	for _, q := range closedL {
+		if q == p {
+			return true
+		}
+	}
+	return false
+}
+
+//go:norace
+func resetChanSim() { closedL = nil }
+
+func isClosed(p uintptr) bool { return isClosedNoted(p) }
+
+// Select replaces a select statement.
+func Select(site string, hasDefault bool, cases ...SelCase) *SelResult {
+	t := curTask()
+	if t == nil {
+		return realSelect(hasDefault, cases)
+	}
+	if aborting(t) { // unwinding: never block
+		return realSelect(true, cases)
+	}
+	handOff(t, site)
+	infos := make([]selInfo, len(cases))
+	for i, c := range cases {
+		infos[i] = c.info()
+	}
+	for {
+		var rd []int
+		for i, c := range cases {
+			if ready(t, c) {
+				rd = append(rd, i)
+			} else if in := infos[i]; !in.send && in.ptr != 0 && c.value().Len() == 0 {
+				// empty and not known to be closed: probe (consumes nothing when it does not succeed
+				// with a value; a value can only appear here if the channel was closed outside the run)
+				if x, ok := c.value().TryRecv(); x.IsValid() {
+					if !ok {
+						noteClosed(in.ptr)
+						rd = append(rd, i)
+					} else {
+						unblockChan(in.ptr)
+						return &SelResult{Index: i, val: x.Interface(), ok: true}
+					}
+				}
+			}
+		}
+		if len(rd) > 0 {
+			i := rd[pickN(len(rd))]
+			in := infos[i]
+			if in.send {
+				if r, k := findPeer(in.ptr, false, t); r != nil {
+					serve(r, k, in.val)
+					meet(r)
+				} else if cases[i].sendNow() { // panics on a closed channel, as in Go
+					unblockChan(in.ptr)
+				} else {
+					continue
+				}
+				res := &SelResult{Index: i}
+				handOff(t, site)
+				return res
+			}
+			if x, ok, done := tryRecvNow(t, cases[i].value(), in.ptr); done {
+				var v interface{}
+				if x.IsValid() {
+					v = x.Interface()
+				}
+				return &SelResult{Index: i, val: v, ok: ok}
+			}
+			continue
+		}
+		if hasDefault {
+			return &SelResult{Index: -1}
+		}
+		if fired, v := parkChan(t, infos, site); fired >= 0 {
+			return &SelResult{Index: fired, val: v, ok: !infos[fired].send}
+		}
+	}
+}
+
+// realSelect: outside a simulated run (or while unwinding) use reflect.Select.
+func realSelect(hasDefault bool, cases []SelCase) *SelResult {
+	rc := make([]reflect.SelectCase, 0, len(cases)+1)
+	for _, c := range cases {
+		in := c.info()
+		if in.send {
+			x := reflect.ValueOf(in.val)
+			if !x.IsValid() {
+				x = reflect.Zero(c.value().Type().Elem())
+			}
+			rc = append(rc, reflect.SelectCase{Dir: reflect.SelectSend, Chan: c.value(), Send: x})
+		} else {
+			rc = append(rc, reflect.SelectCase{Dir: reflect.SelectRecv, Chan: c.value()})
+		}
+	}
+	if hasDefault {
+		rc = append(rc, reflect.SelectCase{Dir: reflect.SelectDefault})
+	}
+	i, x, ok := reflect.Select(rc)
+	if hasDefault && i == len(cases) {
+		return &SelResult{Index: -1}
+	}
+	var v interface{}
+	if x.IsValid() {
+		v = x.Interface()
+	}
+	return &SelResult{Index: i, val: v, ok: ok}
+}
+
+// pickN draws from the run's seeded stream (advanced in baton order only).
+//
+//go:norace
+func pickN(n int) int {
+	if n <= 1 || mapPolicy == Canonical {
+		return 0
+	}
+	mapCalls++
+	return int(splitmix(mapSeed^(mapCalls*0xa0761d6478bd642f)) % uint64(n))
+}
